@@ -21,6 +21,8 @@ from harness.tlc import SPEC, run_tlc, write_cfg
 from harness.tracecheck import validate_traces
 
 SD = SPEC / "suspenders"
+# few GC threads: the JVMs are short-lived and the machine is shared (16 parallel-GC threads per JVM thrash under load)
+JENV = {"_JAVA_OPTIONS": "-XX:ParallelGCThreads=2"}
 DESIGN_REF = "DESIGN.md section 7 (C30), section 8"
 ALL = ["BoolHigh", "BoolLow", "Floor", "Ceil", "WhenOutsideBand", "OutBand", "WhenChanged"]
 INVS = ["C30_Exclusive", "C30_ExplicitHonoured", "C30_DefaultsAsDocumented", "C30_TrippedIffLastDecision",
@@ -224,20 +226,20 @@ def run(ctx):
     rows_file = ctx.out / "pred_rows.ndjson"
     hist_re = re.compile(r'<<"HIST", "((?:[^"\\]|\\.)*)">>')
     if ctx.quick:
-        consts = {"VNeg": 1, "VMax": 2, "MaxLen": 4, "AllowKF": True, "Classes": set(ALL)}
+        consts = {"VNeg": 1, "VMax": 2, "MaxLen": 4, "MaxIdle": 2, "AllowKF": True, "Classes": set(ALL)}
         cfgp = write_cfg(ctx.out / "small_replay.cfg", consts, invariants=["TypeOK"] + INVS, properties=PROPS,
                          constraints=["DumpHist"], postcondition="DumpPreds")
-        res = run_tlc("Suspenders", cfgp, spec_dir=SD, env={"CASES_OUT": rows_file}, tag="C30", workers=1, timeout=3000)
+        res = run_tlc("Suspenders", cfgp, spec_dir=SD, env=dict(JENV, CASES_OUT=rows_file), tag="C30", workers=1, timeout=3000)
         ctx.add_tlc(res, f"Suspenders exhaustive + replay generation {consts}")
         runs = [res]
     else:
-        res = run_tlc("Suspenders", "Suspenders_large.cfg", spec_dir=SD, env={"CASES_OUT": rows_file}, tag="C30", timeout=3000)
+        res = run_tlc("Suspenders", "Suspenders_large.cfg", spec_dir=SD, env=dict(JENV, CASES_OUT=rows_file), tag="C30", timeout=3000)
         ctx.add_tlc(res, "Suspenders exhaustive Suspenders_large.cfg")
         runs = [res]
         if res.ok:
-            consts = {"VNeg": 2, "VMax": 3, "MaxLen": 4, "AllowKF": True, "Classes": set(ALL)}
+            consts = {"VNeg": 1, "VMax": 3, "MaxLen": 4, "MaxIdle": 4, "AllowKF": True, "Classes": set(ALL)}
             cfgp = write_cfg(ctx.out / "replay.cfg", consts, invariants=INVS, properties=PROPS, constraints=["DumpHist"])
-            res = run_tlc("Suspenders", cfgp, spec_dir=SD, tag="C30r", workers=1, timeout=3000)
+            res = run_tlc("Suspenders", cfgp, spec_dir=SD, tag="C30r", workers=1, timeout=3000, env=JENV)
             ctx.add_tlc(res, f"Suspenders replay generation {consts}")
             runs.append(res)
     for res in runs:
@@ -270,29 +272,25 @@ def run(ctx):
     # 3. random long sequences on the real classes, validated by TLC
     rng = random.Random(ctx.seed)
     traces, meta = random_traces(ctx, rng, 150 if ctx.quick else 3000)
-    v = validate_traces("SuspendersTrace", "SuspendersTrace.cfg", traces, SD, ctx.out, tag="C30t")
-    ctx.add_tlc(v.res, "SuspendersTrace (documented constructor only)")
-    rej = report_trace_verdict(ctx, v, traces, meta, "doc")
-    accepted = len(traces) - len(rej) - (1 if v.invariant else 0)
-    if rej:
-        # traces the documented machine cannot explain: does the as-found constructor of KF-C30-1 explain them?
-        sub = [traces[i] for i in rej]
-        v2 = validate_traces("SuspendersTrace", "SuspendersTrace_kf.cfg", sub, SD, ctx.out, tag="C30tk")
-        ctx.add_tlc(v2.res, "SuspendersTrace (as-found constructor of KF-C30-1 allowed) on the rejected traces")
-        report_trace_verdict(ctx, v2, sub, [meta[i] for i in rej], "kf")
-        for j, i in enumerate(rej):
-            m, t = meta[i], traces[i]
-            if j in v2.rejected or v2.invariant:
-                upto = v2.rejected.get(j, v.rejected[i])
-                ev = t["obs"][upto] if upto < len(t["obs"]) else None
-                ctx.violation(f"trace-rejected:{m['impl']}:{m['ctor']}:v0={m['signal_initial']}:running={m['running']}:vals={[o['v'] for o in t['obs'][:upto + 1]]}",
-                              f"outputs recorded from {m['ctor']} (signal initially {m['signal_initial']}, {m['rep']}/{m['signal']}) are not a behaviour of "
-                              f"Suspenders.tla: observation {upto} = {ev} after values {[o['v'] for o in t['obs'][:upto]]}",
-                              {"case": m, "trace": t, "accepted_prefix": upto})
-            else:
-                accepted += 1
-                ctx.violation(f"{KF_SIG}:trace", f"{m['ctor']} with the signal at {m['signal_initial']} behaves as if expected_value were "
-                              f"{m['signal_initial']}: trace accepted only with the as-found constructor", {"case": m, "trace": t})
+    # one TLC run: the documented and (KF-C30-1) the as-found constructor are both offered; a register records per trace
+    # whether only the as-found one explains it
+    v = validate_traces("SuspendersTrace", "SuspendersTrace.cfg", traces, SD, ctx.out, tag="C30t", env=JENV)
+    ctx.add_tlc(v.res, "SuspendersTrace")
+    report_trace_verdict(ctx, v, traces, meta, "trace")
+    accepted = len(traces) - len(v.rejected) - (1 if v.invariant else 0)
+    for i, upto in sorted(v.rejected.items()):
+        m, t = meta[i], traces[i]
+        ev = t["obs"][upto] if upto < len(t["obs"]) else None
+        ctx.violation(f"trace-rejected:{m['impl']}:{m['ctor']}:v0={m['signal_initial']}:running={m['running']}:vals={[o['v'] for o in t['obs'][:upto + 1]]}",
+                      f"outputs recorded from {m['ctor']} (signal initially {m['signal_initial']}, {m['rep']}/{m['signal']}) are not a behaviour of "
+                      f"Suspenders.tla: observation {upto} = {ev} after values {[o['v'] for o in t['obs'][:upto]]}",
+                      {"case": m, "trace": t, "accepted_prefix": upto})
+    for i in sorted(int(x) - 1 for x in re.findall(r'<<"KFONLY", (\d+)>>', v.res.stdout)):
+        if i in v.rejected:
+            continue
+        m, t = meta[i], traces[i]
+        ctx.violation(f"{KF_SIG}:trace", f"{m['ctor']} with the signal at {m['signal_initial']} behaves as if expected_value were "
+                      f"{m['signal_initial']}: trace explained only by the as-found constructor", {"case": m, "trace": t})
     ctx.traces(max(0, accepted))
     ctx.assumptions += [
         "asyncio loop replaced by a stub: call_soon_threadsafe runs inline, call_later on a virtual clock that is always advanced past the sleep",
